@@ -257,12 +257,22 @@ Proof. exact float_syntax_spelled. Qed.
 Print Assumptions C05_float_syntax_accepts_xsd.
 
 (* ======================= enumerations ===================================== *)
-(* full round trip is false: tuple values *)
-Theorem C05_enum_tuple_ser_refuted :
+(* token-tuple enumerations (list-typed enumerations as generated): serializable
+   since /repo f0dd6fc; every member reads back as itself *)
+Theorem C05_enum_tokens_roundtrip : forall m d ls i toks,
+  tok_values d = Some ls ->
+  forallb (fun e => match snd e with EvTuple l => all_strs l | _ => false end) d = true ->
+  NoDup ls -> nth_error ls i = Some toks -> forallb token_ok toks = true ->
+  enum_ser m (EvTuple (strs toks)) = Some (join [32]%N toks, m)
+  /\ enum_deser m d (join [32]%N toks) = Some i.
+Proof. exact enum_tokens_roundtrip. Qed.
+Print Assumptions C05_enum_tokens_roundtrip.
+
+Example C05_enum_tuple_witness :
   let v := EvTuple [AStr [97]%N; AStr [98]%N] in
-  enum_ser None v = None /\ enum_deser None [([65]%N, v)] [97;32;98]%N = Some 0%nat.
-Proof. exact enum_tuple_ser_refuted. Qed.
-Print Assumptions C05_enum_tuple_ser_refuted.
+  enum_ser None v = Some ([97;32;98]%N, None) /\ enum_deser None [([65]%N, v)] [97;32;98]%N = Some 0%nat.
+Proof. exact enum_tuple_witness. Qed.
+Print Assumptions C05_enum_tuple_witness.
 
 (* no whitespace guard any more (repo fix 64a4ace: an exact match wins) *)
 Theorem C05_enum_str_roundtrip : forall m d vs i v,
